@@ -5,12 +5,11 @@ import random
 from harness import core, docgen, inputs, trees, xdoc
 
 GEN = ['gen_tables', 'gen_regex', 'gen_config', 'gen_escapes']
-THEOREMS = ['C05_closed_blocks_independent', 'C05_line_numbers_shift', 'C05_blank_line_skipped', 'C05_bounded_pairs']
+THEOREMS = ['C05_closed_blocks_independent', 'C05_stable_blocks_independent', 'C05_line_numbers_shift', 'C05_blank_line_skipped', 'C05_bounded_pairs']
 TRUSTED = ['the parser model (tied by X-doc on A, B and A + blank + B)',
            'vm_compute for the bounded sweep of pairs']
-ASSUMPTIONS = ['PARTIAL: the unbounded theorem requires EVERY top-level block of A to be of a closed kind (paragraph, setext/ATX heading, thematic break, '
-               'block quote, table); the property only asks this of A\'s last block - pairs whose A contains code, lists or HTML blocks before a closed '
-               'last block are covered by the kernel sweep up to its bound and by the oracle on the implementation',
+ASSUMPTIONS = ['PARTIAL: the unbounded theorems require every top-level block of A before its closed last block to be closed too, or indented code / fenced '
+               'code / an HTML block; a LIST before the closed last block is covered by the kernel sweep up to its bound and by the oracle on the implementation',
                'the theorem is about the block phase (structure and line numbers); with no link definitions in A or B the inline phase is a function of each '
                'block\'s own lines',
                'A is taken with a final newline; the separator is one empty line']
